@@ -2,11 +2,16 @@
    for bool, option, unit, prod, list, sumbool, sumor; N, Z, positive, nat stay extracted datatypes.
    No Extract Constant. *)
 From Coq Require Extraction ExtrOcamlBasic.
-From XetModel Require Import Gen.HashConsts Model.Chunker Model.Blake3 Model.Merkle.
+From XetModel Require Import Gen.HashConsts Gen.ShardFacts Model.Chunker Model.Blake3 Model.Merkle Model.Shard.
 Extraction Language OCaml.
 Extraction "model.ml"
   Chunker.chunker_new Chunker.run_calls Chunker.spec_chunks Chunker.st0
   Blake3.keyed_hash
   Merkle.compute_data_hash Merkle.compute_internal_node_hash Merkle.hmac Merkle.range_hash_from_chunks
   Merkle.cas_node_hash Merkle.validator_root Merkle.file_node_hash Merkle.hex Merkle.base64 Merkle.from_hex Merkle.from_base64
-  Merkle.hashed_write HashConsts.hashed_write_hashes_whole_buffer.
+  Merkle.hashed_write HashConsts.hashed_write_hashes_whole_buffer
+  Shard.ms_empty Shard.add_cas_block Shard.add_file_info Shard.serialize_from Shard.load_footer Shard.read_all_files Shard.read_all_cas
+  Shard.get_file_info Shard.probe_exact Shard.search Shard.read_tbl12 Shard.read_tbl16 Shard.parse_cas_info Shard.parse_file_info
+  Shard.shard_file_size Shard.mem_union Shard.mem_difference Shard.mem_dedup_query Shard.dedup_query Shard.dedup_direct Shard.export_keyed
+  Shard.truncate_hash Shard.recalc_size Shard.keyed
+  ShardFacts.size_replace_aware ShardFacts.size_per_occurrence.
